@@ -23,6 +23,8 @@ var corpus = []string{
 	// password chain, wrong old, same, scheme changes valid / invalid, foreign-parameter import
 	"W 1 imp:0:a:0:1:1:1;pw:k0:2:3;pw:k0:1:1;pw:k0:1:2;pw:k0:2:3;sch:k0:5;sch:k0:9;sch:k0:11;imp:1:b:0:1:1:2;imp:2:c:3:1:1:1;imp:3:d:0:9:1:1;rl;pw:k0:3:1",
 	"W 1 def:k0;lab:k0:x;pw:k0:1:2;del:k0:1;sch:k0:1;rl",
+	// another wallet file with other scrypt parameters is opened in the same process: this wallet must keep its own
+	"W 1 imp:0:a:0:1:1:1:0;ow:2;pw:k0:1:2;imp:1:b:0:1:3:1:0;rl;ow:1;new:c:1:2",
 	// metadata flagged default: into an empty wallet, into a wallet with a default; then the default moves back and forth
 	"W 1 imp:0:a:0:1:1:1:1;imp:1:b:0:1:1:1:1;imp:2:c:0:1:1:1:0;def:k2;def:k0;del:k1:1;rl;def:k2;del:k0:1",
 }
@@ -148,6 +150,8 @@ func gen(r *hx.Rand, tier string, i int) string {
 		case x < 94:
 			ref, _ := pick()
 			ops = append(ops, fmt.Sprintf("sch:%s:%d", ref, []int{0, 1, 2, 5, 8, 9, 11}[r.Intn(7)]))
+		case x < 97:
+			ops = append(ops, fmt.Sprintf("ow:%d", 1+r.Intn(2))) // another wallet: equal (control) or other low-cost parameters; never the 16384 default, which would make a broken tree crawl
 		default:
 			ops = append(ops, "rl")
 		}
